@@ -30,6 +30,10 @@ def instances(tier):
                     continue
                 out.append(Instance("edit.%s.%s.L%d.%s" % (wrap, "cap" if caption else "nocap", L, key), "h_edit",
                                     {"L": L, "key": key, "wrap": wrap, "multiline": multiline, "allow_tab": allow_tab, "caption": caption, "maxw": 3 if q else 5}, timeout=600 if q else 2400))
+                # the same step from a state that remembers a preferred column (after an earlier vertical move)
+                if key in ("char", "backspace", "delete", "left", "right", "up", "down", "enter") and (not q or (L == 1 and cfg[0] != "clip")):
+                    out.append(Instance("edit.%s.%s.L%d.%s.pref" % (wrap, "cap" if caption else "nocap", L, key), "h_edit",
+                                        {"L": L, "key": key, "wrap": wrap, "multiline": multiline, "allow_tab": allow_tab, "caption": caption, "maxw": 3 if q else 5, "pref": True}, timeout=600 if q else 2400))
     for L in (0, 1, 2):
         for key in ("char", "backspace", "delete", "left"):
             out.append(Instance("bytes.L%d.%s" % (L, key), "h_edit_bytes", {"L": L, "key": key}, timeout=600))
@@ -66,6 +70,7 @@ def _mk(I, L, wrap, multiline, allow_tab, caption, kind="str"):
     e._edit_text = t
     e._edit_pos = pos
     e.pref_col_maxcol = (None, None)
+    e._pre_pref = None
     log = []
     urwid.connect_signal(e, "change", lambda w, new: log.append(("change", new, w.edit_text)))
     urwid.connect_signal(e, "postchange", lambda w, old: log.append(("postchange", old, w.edit_text)))
@@ -77,7 +82,7 @@ def _teq(a, b):
     return r
 
 
-def h_edit(I, L, key, wrap, multiline, allow_tab, caption, maxw):
+def h_edit(I, L, key, wrap, multiline, allow_tab, caption, maxw, pref=False):
     import urwid
     from urwid import text_layout
     from symx import uw
@@ -87,6 +92,11 @@ def h_edit(I, L, key, wrap, multiline, allow_tab, caption, maxw):
     horizontal = key in ("char", "left", "right", "backspace", "delete", "enter", "tab", "f5")
     maxcol = I.int("maxcol", 1) if horizontal else int(I.int("maxcol", 1, maxw))
     size = (maxcol,)
+    # representation: a preferred column may be remembered from an earlier vertical move at this width
+    stored = None
+    if pref:
+        stored = I.int("stored_pref_col", 0) if horizontal else int(I.int("stored_pref_col", 0, maxw))
+        e.pref_col_maxcol = (stored, maxcol)
     if key == "char":
         c = I.int("ch", 32, 0x10FFFF)
         I.assume(Or(c < 0xD800, c > 0xDFFF))
@@ -95,6 +105,7 @@ def h_edit(I, L, key, wrap, multiline, allow_tab, caption, maxw):
         I.check("printable_handled", r is None)
         I.check("insert_at_cursor", _teq(e.edit_text, uw.mk_text(I, "str", cps[:pos] + [c] + cps[pos:])))
         I.check("cursor_after_inserted", e.edit_pos == pos + 1)
+        I.check("preferred_column_forgotten", e.pref_col_maxcol == (None, None))
         I.check("change_then_postchange", [x[0] for x in log] == ["change", "postchange"])
         if len(log) == 2:
             I.check("change_carries_new_text_before", And(_teq(log[0][1], e.edit_text), _teq(log[0][2], t)))
@@ -105,6 +116,8 @@ def h_edit(I, L, key, wrap, multiline, allow_tab, caption, maxw):
         edge = pos == 0 if key == "left" else pos == L
         I.check("edge_returns_key", (r is key) == edge)
         I.check("moves_one_character", e.edit_pos == (pos if edge else pos + (-1 if key == "left" else 1)))
+        if not edge:
+            I.check("preferred_column_forgotten", e.pref_col_maxcol == (None, None))
         I.check("text_unchanged", _teq(e.edit_text, t) and not log)
         return
     if key in ("backspace", "delete"):
@@ -116,6 +129,7 @@ def h_edit(I, L, key, wrap, multiline, allow_tab, caption, maxw):
         else:
             exp = cps[:pos - 1] + cps[pos:] if key == "backspace" else cps[:pos] + cps[pos + 1:]
             I.check("deletes_one_character", _teq(e.edit_text, uw.mk_text(I, "str", exp)))
+            I.check("preferred_column_forgotten", e.pref_col_maxcol == (None, None))
             I.check("cursor", e.edit_pos == (pos - 1 if key == "backspace" else pos))
             I.check("change_then_postchange", [x[0] for x in log] == ["change", "postchange"])
             if len(log) == 2:
@@ -175,9 +189,10 @@ def h_edit(I, L, key, wrap, multiline, allow_tab, caption, maxw):
         I.check("text_unchanged", _teq(e.edit_text, t))
         if r is None:
             # closest position to the preferred column on that row: nothing on the row lies strictly between
+            want = x0 if stored is None else stored
             for p in range(L + 1):
                 xp, yp = e.position_coords(maxcol, p)
-                I.check("keeps_preferred_column_%d" % p, Implies(yp == y1, Not(And(xp > x1, xp <= x0))))
+                I.check("keeps_preferred_column_%d" % p, Implies(yp == y1, Not(And(xp > x1, xp <= want))))
         return
     if key == "click":
         cx = int(I.int("click_x", 0, maxw))
